@@ -37,7 +37,6 @@ A1(row, col, absR, absC) ==
 Signed(n) == IF n < 0 THEN <<"-">> \o Numeral(-n) ELSE Numeral(n)
 Part(letter, abs, target, host) ==
   IF abs THEN <<letter>> \o Numeral(target)
-  ELSE IF target = host THEN <<letter>>
   ELSE <<letter, "[">> \o Signed(target - host) \o <<"]">>
 R1C1(row, col, absR, absC, hostR, hostC) == Part("R", absR, row, hostR) \o Part("C", absC, col, hostC)
 
